@@ -114,7 +114,8 @@ def step (_ : Unit) (ws : List String) : Unit × String :=
       if calls.length ≠ n then ((), "bad-op")
       else
         let steps := ",".intercalate (calls.map showStep)
-        match configure calls with
+        -- the harness drops SetOAuthPkce / SetPrefix / SetAuthenticate steps: they are `Setter.other`
+        match (calls.map fun c => Setter.metadata c.1 c.2).foldl applySetter none with
         | none => ((), s!"steps={steps} none")
         | some c => ((), s!"steps={steps} h {showChallenge c.url c.md} p {showParsed (build c.url c.md)}")
     | _, _ => ((), "bad-op")
